@@ -95,9 +95,9 @@ QV = [M.TEXT, M.CALC, M.BGROUP, M.EGROUP, M.BREPEAT, M.EREPEAT, M.SELECT]
 
 def c04_seq3(k0: int, k1: int, i2: int, l0: int, l1: int) -> bool:
     """
-    pre: 0 <= i2 <= 6
-    pre: 33 <= l0 <= 126 and l0 != 36 and 33 <= l1 <= 126 and l1 != 36
-    post: _ == True
+    vpre: 0 <= i2 <= 6
+    vpre: 33 <= l0 <= 126 and l0 != 36 and 33 <= l1 <= 126 and l1 != 36
+    vpost: _ == True
     """
     return seq_shape_ok([k0, k1, QV[i2]], S(l0, l1))
 
@@ -119,9 +119,9 @@ specialise(
 
 def c04_noise(k0: int, n1: int, k2: int, l0: int, l1: int) -> bool:
     """
-    pre: 0 <= k0 <= 9 and 0 <= k2 <= 9
-    pre: 33 <= l0 <= 126 and l0 != 36 and 33 <= l1 <= 126 and l1 != 36
-    post: _ == True
+    vpre: 0 <= k0 <= 9 and 0 <= k2 <= 9
+    vpre: 33 <= l0 <= 126 and l0 != 36 and 33 <= l1 <= 126 and l1 != 36
+    vpost: _ == True
     """
     return seq_shape_ok([k0, n1, k2], S(l0, l1))
 
@@ -142,9 +142,9 @@ specialise(
 
 def c04_seq3full(k0: int, k1: int, k2: int, l0: int, l1: int) -> bool:
     """
-    pre: 0 <= k2 <= 9
-    pre: 33 <= l0 <= 126 and l0 != 36 and 33 <= l1 <= 126 and l1 != 36
-    post: _ == True
+    vpre: 0 <= k2 <= 9
+    vpre: 33 <= l0 <= 126 and l0 != 36 and 33 <= l1 <= 126 and l1 != 36
+    vpost: _ == True
     """
     return seq_shape_ok([k0, k1, k2], S(l0, l1))
 
@@ -167,9 +167,9 @@ specialise(
 
 def c04_seq4(k0: int, k1: int, i2: int, i3: int, l0: int) -> bool:
     """
-    pre: 0 <= i2 <= 5 and 0 <= i3 <= 5
-    pre: 33 <= l0 <= 126 and l0 != 36
-    post: _ == True
+    vpre: 0 <= i2 <= 5 and 0 <= i3 <= 5
+    vpre: 33 <= l0 <= 126 and l0 != 36
+    vpost: _ == True
     """
     return seq_shape_ok([k0, k1, QV[i2], QV[i3]], S(l0, 65))
 
